@@ -8,7 +8,7 @@ Dataset files, and the CLI entry point with --out-columns.
 from simworld.core import H
 from . import common
 
-NPLANS = {"quick": 200, "thorough": 4000}
+NPLANS = {"quick": 400, "thorough": 4000}
 RULE = (
     "plan i = H(seed,'C05',i): 1-8 valid corpus rows with 0-3 poison rows (unparsable SMILES, no '>>', 'A>B>C', "
     "two '>>', empty side, empty string, missing value) at drawn positions; batch size in {None,1..n+1}; source in "
